@@ -518,3 +518,17 @@ mutant("c01-prio-key-swapped", ["C01", "C02"], [(SIDE, "        self.orders.inse
 mutant("c02-mid-price-weighted", "C02", (OB, "        0.5 * (f64::from(bid) + f64::from(ask))", "        0.5 * f64::from(bid) + 0.49 * f64::from(ask)"), expect="views")
 mutant("c03-reset-does-nothing", ["C03", "C08", "C11"], (OB, "    pub fn reset_trade_vol(&mut self) {\n        self.trade_vol = 0;", "    pub fn reset_trade_vol(&mut self) {"), expect="does not (only) reset")
 mutant("c01-empty-side-no-exit", "C01", (OB, "                None => {\n                    break;\n                }", "                None => {}", ), expect="K4-loop", first=True)
+# ---- survivors of the mechanical mutation sweep (selftest/mutation_sweep.py) that no check reported at first
+PYSSNP = "rust/src/step_sim_numpy.rs"
+mutant("c17-sell-branch-const-false", "C17", (MOM, "                } else if m < 0.0 {\n                    let order_id = common::place_sell_limit_order(", "                } else if false {\n                    let order_id = common::place_sell_limit_order("), expect="sign", first=True)
+mutant("c17-formula-times-n", "C17", (MOM, "let p = self.params.demand * f64::tanh(self.params.scale * m) / self.n;", "let p = self.params.demand * f64::tanh(self.params.scale * m) * self.n;"), expect="documented", first=True)
+mutant("c17-first-step-prob", "C17", (MOM, "            None => (0.0, 0.0),", "            None => (0.0, 0.1),"), expect="first-step", first=True)
+mutant("c17-initial-momentum", "C17", (MOM, "            momentum: 0.0,", "            momentum: 0.1,"), expect="starts with", first=True)
+mutant("c16-empty-tick-range", "C16", (RAND, "let tick = rng.gen_range(self.tick_range.0..self.tick_range.1);", "let tick = rng.gen_range(self.tick_range.1..self.tick_range.1);"), expect="grid", first=True)
+mutant("c16-limit-id-forgotten", "C16", (MOM, "                    .unwrap();\n                    live_orders.push(order_id);\n                } else if m < 0.0 {", "                    .unwrap();\n                    let _ = order_id;\n                } else if m < 0.0 {"), expect="is not (always) added", first=True)
+mutant("c16-trader-id-range", "C16", (NOISE, "(agent_id_start..agent_id_start + TraderId::from(n_agents)).collect();", "(agent_id_start..agent_id_start - TraderId::from(n_agents)).collect();"), expect="trader id table", first=True)
+mutant("c18-get-orders-skip", "C18", (PYSS, "self.env.get_orders().into_iter().map(cast_order).collect()", "self.env.get_orders().into_iter().skip(1).map(cast_order).collect()"), expect="dropped or reordered")
+mutant("c18-prices-pair-transposed", "C18", (PYSS, "(prices.0.to_pyarray(py), prices.1.to_pyarray(py))", "(prices.1.to_pyarray(py), prices.0.to_pyarray(py))"), expect="qualifier")
+mutant("c18-ctor-step-size", "C18", (PYSS, "let env = BaseEnv::new(start_time, tick_size, step_size, trading);", "let env = BaseEnv::new(start_time, tick_size, step_size + 1, trading);"), expect="forward")
+mutant("c18-numpy-enable-dropped", "C18", (PYSSNP, "    pub fn enable_trading(&mut self) {\n        self.env.enable_trading();", "    pub fn enable_trading(&mut self) {"), expect="sibling")
+mutant("c12-tick-assert-removed", "C12", (OB, "        assert!(tick_size > 0);\n", ""), expect="tick_size == 0")
